@@ -18,6 +18,7 @@ class DocSpec(object):
         self.layout = layout          # 'google' | 'freeform' | 'none'
         self.markers = markers        # one per block / group, in order
         self.tails = {}               # block marker -> marker of a second group of the same block, behind two empty lines
+        self.ignored = []             # markers under a header that freeform collection leaves out
 
 
 def docstring_lines(rng, ind, uid, nblocks, layout, quote='"""', first_line_prose=True):
@@ -25,6 +26,7 @@ def docstring_lines(rng, ind, uid, nblocks, layout, quote='"""', first_line_pros
     L = [ind + quote + ('Summary %s.' % uid if first_line_prose else ''), '']
     markers = []
     tails = {}
+    ignored = []
     if layout == 'google':
         opening_header = rng.random() < 0.15
         # one docstring in six spells ALL its headers the other accepted ways (a double colon, a blank before the colon)
@@ -51,10 +53,19 @@ def docstring_lines(rng, ind, uid, nblocks, layout, quote='"""', first_line_pros
         for b in range(nblocks):
             m = '%s_%d' % (uid, b)
             markers.append(m)
+            if rng.random() < 0.2:
+                # a block under one of the headers that freeform collection leaves out, made of several parts (a want
+                # between its statements): none of it belongs to the doctest
+                ig = [m + '55', m + '56']
+                ignored.extend(ig)
+                L += [ind + rng.choice(['Ignore:', 'Script:', 'Benchmark:', 'DisableDoctest:', 'SkipDoctest:']),
+                      ind + '    >>> print("%s")' % ig[0], ind + '    ' + ig[0], ind + '    >>> print("%s")' % ig[1],
+                      ind + '    ' + ig[1], '', ind + 'prose behind the block that is left out', '']
             L += [ind + '>>> print("%s")' % m, ind + m, '', ind + 'prose between groups', '']
     L.append(ind + quote)
     ds = DocSpec(layout, markers)
     ds.tails = tails
+    ds.ignored = ignored
     ds.opening_header = layout == 'google' and opening_header
     ds.alt_tags = layout == 'google' and bool(alt_tags)
     return L, ds
@@ -94,6 +105,9 @@ class ModuleGen(object):
                 self.spec.features.add('google-headers-in-other-spellings')
         if ds.tails:
             self.spec.features.add('google-block-goes-on-behind-empty-lines')
+        for m in ds.ignored:
+            self.spec.forbidden[m] = 'under a header that freeform collection leaves out'
+            self.spec.features.add('freeform-block-left-out')
         if forbid is not None:
             for m in list(ds.markers) + list(ds.tails.values()):
                 self.spec.forbidden[m] = forbid
